@@ -118,7 +118,9 @@ func turbotunnelMode(conn net.Conn, addr net.Addr, pconn *turbotunnel.QueuePacke
 	// recent WebSocket connection that has had to do with a session, at the
 	// time the session is established, is the IP address that should be
 	// credited for the entire KCP session.
+	vhook("srv.attach", conn, clientID, addr)
 	clientIDAddrMap.Set(clientID, addr)
+	vhook("srv.attached", conn, clientID, addr)
 
 	var wg sync.WaitGroup
 	wg.Add(2)
@@ -136,6 +138,7 @@ func turbotunnelMode(conn net.Conn, addr net.Addr, pconn *turbotunnel.QueuePacke
 			if err != nil {
 				return
 			}
+			vhook("srv.in", conn, clientID, p)
 			pconn.QueueIncoming(p, clientID)
 		}
 	}()
@@ -157,6 +160,7 @@ func turbotunnelMode(conn net.Conn, addr net.Addr, pconn *turbotunnel.QueuePacke
 				if !ok {
 					return
 				}
+				vhook("srv.out", conn, clientID, p)
 				_, err := encapsulation.WriteData(bw, p)
 				if err == nil {
 					err = bw.Flush()
@@ -169,6 +173,7 @@ func turbotunnelMode(conn net.Conn, addr net.Addr, pconn *turbotunnel.QueuePacke
 	}()
 
 	wg.Wait()
+	vhook("srv.detach", conn, clientID)
 
 	return nil
 }
